@@ -44,8 +44,8 @@ pub fn build_command(p: &PlanSpec) -> Command {
         time_field: Some(field_name(p.tf)),
         sequence_time_field: None,
         where_clause: None,
-        limit: None,
-        offset: None,
+        limit: p.limit,
+        offset: p.offset,
         order_by: None,
         picked_zones: None,
         return_fields: None,
@@ -81,7 +81,56 @@ pub fn query_text(p: &PlanSpec) -> String {
         s.push_str(&format!(" BY {}", gb.iter().map(|f| field_name(*f)).collect::<Vec<_>>().join(", ")));
     }
     s.push_str(&format!(" USING {}", field_name(p.tf)));
+    if let Some(l) = p.limit {
+        s.push_str(&format!(" LIMIT {l}"));
+    }
+    if let Some(o) = p.offset {
+        s.push_str(&format!(" OFFSET {o}"));
+    }
     s
+}
+
+/// `compare_scalar_values` of the aggregate merger (private there): numeric when both values
+/// read as u64 (a numeric-looking group string does), else `ScalarValue::compare`.
+fn merger_cmp(a: &ScalarValue, b: &ScalarValue) -> std::cmp::Ordering {
+    if let (Some(x), Some(y)) = (a.as_u64(), b.as_u64()) {
+        return x.cmp(&y);
+    }
+    a.compare(b)
+}
+
+/// What `emit_merged_groups` reports of the merged table for LIMIT / OFFSET without ORDER BY:
+/// rows sorted by (bucket, group values) with the merger's comparison, OFFSET dropped, LIMIT kept.
+/// Restated (the function is pub(crate)); only used to decide *which* groups the oracle looks at.
+pub fn reported(p: &PlanSpec, t: &Table) -> Table {
+    if p.limit.is_none() && p.offset.is_none() {
+        return t.clone();
+    }
+    let mut keys: Vec<&(Option<u64>, Vec<String>)> = t.keys().collect();
+    keys.sort_by(|a, b| {
+        if p.bucket.is_some() {
+            let sa = a.0.map(|x| ScalarValue::Int64(x as i64)).unwrap_or(ScalarValue::Null);
+            let sb = b.0.map(|x| ScalarValue::Int64(x as i64)).unwrap_or(ScalarValue::Null);
+            let c = merger_cmp(&sa, &sb);
+            if c != std::cmp::Ordering::Equal {
+                return c;
+            }
+        }
+        for (x, y) in a.1.iter().zip(b.1.iter()) {
+            let c = merger_cmp(&ScalarValue::Utf8(x.clone()), &ScalarValue::Utf8(y.clone()));
+            if c != std::cmp::Ordering::Equal {
+                return c;
+            }
+        }
+        std::cmp::Ordering::Equal
+    });
+    let off = p.offset.unwrap_or(0) as usize;
+    let it = keys.into_iter().skip(off);
+    let kept: Vec<_> = match p.limit {
+        Some(l) => it.take(l as usize).collect(),
+        None => it.collect(),
+    };
+    kept.into_iter().map(|k| (k.clone(), t[k].clone())).collect()
 }
 
 pub struct Env {
